@@ -383,7 +383,10 @@ def run_c11(t, tier, res):
     ot = tr.cap.omen_trainer
     try:
         with guesser.streams():
-            scorer = OmenScorer(tr.rule_dir, enc, 18)
+            # --max_omen is a classification cut-off of password_scorer.py (default 9); the level a string is given
+            # does not depend on it, so it is drawn per run like any other tuning knob
+            max_omen = t.choice([9, 9, 18, 0, 1, 3, 40])
+            scorer = OmenScorer(tr.rule_dir, enc, max_omen)
     except Exception:
         import traceback
         res.violate("C11", "scorer_cannot_load_omen", {"exception": traceback.format_exc()[-800:], "encoding": enc})
